@@ -31,7 +31,7 @@ meta = {
    "demo_without_change": "PASS" if re.search(r'== demo without change.*\nok ', log) else "SEE LOG",
    "demo_with_change": "FAIL" if re.search(r'== demo with change.*\n--- FAIL', log) else "SEE LOG",
    "suite_with_change_failures": re.findall(r'--- FAIL: (\S+)', log.split('== suite with change')[1]) if '== suite with change' in log else [],
-   "known_always_fail": ["TestFileSS_BadPerm"], "known_flaky": ["TestRaft_HasExistingState", "TestRaft_FollowerRemovalNoElection", "TestRaft_ProtocolVersion_Upgrade_1_2"],
+   "known_always_fail": ["TestFileSS_BadPerm"], "known_flaky": ["TestRaft_HasExistingState", "TestRaft_FollowerRemovalNoElection", "TestRaft_ProtocolVersion_Upgrade_1_2", "TestRaft_ProtocolVersion_Upgrade_2_3", "TestRaft_RestoreSnapshotOnStartup_Monotonic"],
    "log": log,
  },
  "detected_by": det,
